@@ -1,20 +1,118 @@
 (* C16 — snapshot directories are crash-atomic; restart cleans up and recovers.
-   Statements only: each theorem is closed by [exact <lemma>]; proofs live in Proofs/. *)
-From Coq Require Import List NArith Bool.
+   Statements only: each theorem is closed by [exact <lemma>]; proofs live in Proofs/.
+
+   Reading guide.  [do_cmds ord init cs] runs any sequence [cs] of the calls a
+   replica makes (Save, Commit, a received snapshot stream, the engine's
+   persist-and-remove-flag step, Shrink, Compact, restart, crash+restart) on the
+   model of the file system and returns the final state and the list of
+   file-system / log-store operations that were executed.  A crash point is a
+   prefix [firstn k] of that list: [run init (firstn k trace)] is the state when
+   the power is lost, [run _ [OCrash]] discards what was not synced.
+   [ord] is the (arbitrary) order in which a directory listing returns names. *)
+From Coq Require Import List NArith Bool Permutation.
 From DB Require Import Model.FS Model.SnapshotDir Proofs.SnapshotDir.
 Import ListNotations.
 Open Scope N_scope.
 
-(* snapshotter.Commit records the snapshot before it removes the flag file, and
-   the engine persists a received snapshot's record (SaveRaftState) before
-   onSnapshotSaved removes its flag file: the statement orders are regenerated
-   from snapshotter.go / engine.go on every run *)
-Theorem commit_records_before_flag_removal : forall i,
-  commit_tail i = [ORecord i; OFs (FRemove (DFinal i) FFlag)].
-Proof. exact commit_tail_order. Qed.
-Print Assumptions commit_records_before_flag_removal.
+(* invariant over every prefix of every program: whenever the log store records
+   snapshot i, directory i exists durably (and in the running view) and holds a
+   durable, complete snapshot file *)
+Theorem recorded_implies_complete : forall ord cs k,
+  ord_ok ord ->
+  let s := run init (firstn k (snd (do_cmds ord init cs))) in
+  st_rec s <> 0 -> durable_complete s (st_rec s).
+Proof. exact recorded_implies_complete_proved. Qed.
+Print Assumptions recorded_implies_complete.
 
-Theorem engine_records_before_flag_removal : forall i,
-  apply_ops i = [ORecord i; OFs (FRemove (DFinal i) FFlag)].
-Proof. exact apply_ops_order. Qed.
-Print Assumptions engine_records_before_flag_removal.
+(* for all programs and all cut points: after the crash the start-up cleanup
+   succeeds (no error, no panic), and what remains is clean: only the recorded
+   snapshot's directory (complete file, no flag file), no .generating /
+   .receiving directory; the record itself is unchanged *)
+Theorem cleanup_yields_only_complete : forall ord cs k,
+  ord_ok ord ->
+  let s := run init (firstn k (snd (do_cmds ord init cs))) in
+  exists u tr, process_orphans ord (run s [OCrash]) = (u, tr, true) /\ cleanb u = true /\ st_rec u = st_rec s.
+Proof. exact cleanup_yields_only_complete_proved. Qed.
+Print Assumptions cleanup_yields_only_complete.
+
+(* the same two facts for ANY sequence of operations that respects the guards
+   [allowed] (no write into a final directory except the shrunk file, rename to a
+   final name only of a durable complete temporary directory, record only a
+   durable final directory, never remove the recorded directory); the programs
+   above are one instance (next theorem) *)
+Theorem guarded_runs_keep_recorded_complete : forall ops k,
+  allowed_run init ops ->
+  let s := run init (firstn k ops) in st_rec s <> 0 -> durable_complete s (st_rec s).
+Proof. exact guarded_recorded_implies_complete. Qed.
+Print Assumptions guarded_runs_keep_recorded_complete.
+
+Theorem programs_respect_guards : forall ord cs,
+  ord_ok ord -> allowed_run init (snd (do_cmds ord init cs)).
+Proof. exact trace_allowed. Qed.
+Print Assumptions programs_respect_guards.
+
+(* every allowed operation (crash included) preserves the invariant *)
+Theorem allowed_step_preserves_invariant : forall s o t,
+  Inv s -> allowed s o -> step s o = Some t -> Inv t.
+Proof. exact step_inv. Qed.
+Print Assumptions allowed_step_preserves_invariant.
+
+(* the flag file is removed only after the record is durable: in Commit and in
+   the engine the record precedes the removal (statement order regenerated from
+   snapshotter.go / engine.go), and processOrphans removes a flag file only of
+   the recorded snapshot *)
+Theorem flag_removed_only_after_record_durable :
+  (forall i, commit_tail i = [ORecord i; OFs (FRemove (DFinal i) FFlag)]) /\
+  (forall i, apply_ops i = [ORecord i; OFs (FRemove (DFinal i) FFlag)]) /\
+  (forall n s ops j, po_one n s = Some ops -> In (OFs (FRemove (DFinal j) FFlag)) ops -> st_rec s = j /\ j <> 0).
+Proof. exact flag_removed_only_after_record_proved. Qed.
+Print Assumptions flag_removed_only_after_record_durable.
+
+(* local save versus incoming snapshot of the same index (FinalizeSnapshot under
+   finalizeLock): whoever finds the final directory present gets OutOfDate,
+   removes its own temporary directory, renames nothing and records nothing;
+   whoever finds it absent renames and syncs the root *)
+Theorem local_save_vs_incoming_same_index : forall tmp i tail s,
+  has_dir tmp (st_fs s) = true -> has_dir (DFinal i) (st_fs s) = true ->
+  exists t, finalize tmp i tail s = (t, flagfile_ops tmp FFlag i ++ rmdir_ops tmp, OutOfDate) /\
+            has_dir tmp (st_fs t) = false /\ st_rec t = st_rec s.
+Proof. exact finalize_loser. Qed.
+Print Assumptions local_save_vs_incoming_same_index.
+
+Theorem finalize_first_wins : forall tmp i tail s t tr oc,
+  has_dir tmp (st_fs s) = true -> has_dir (DFinal i) (st_fs s) = false ->
+  finalize tmp i tail s = (t, tr, oc) ->
+  exists rest, tr = flagfile_ops tmp FFlag i ++ OFs (FRenameDir tmp (DFinal i)) :: OFs FSyncRoot :: rest /\
+               oc <> OutOfDate.
+Proof. exact finalize_winner. Qed.
+Print Assumptions finalize_first_wins.
+
+(* not proved here: restart_state_ge_recorded_and_acked (needs C04/C08: the state
+   machine recovered from the recorded snapshot plus the log), import_rerunnable
+   (tools.ImportSnapshot is not modelled; DESIGN section 7, O7). *)
+
+(* ---- non-vacuity ---- *)
+Definition ord_id (l : list dname) : list dname := l.
+Lemma ord_id_ok : ord_ok ord_id.
+Proof. intros l. apply Permutation_refl. Qed.
+
+(* a save in progress, a snapshot of the same index arriving, commit losing, a
+   later snapshot recorded, the old one compacted: 72 operations; crash after 60 *)
+Definition demo : list cmd :=
+  [CSave 5 2; CRecv 5 3; CCommit 5; CApply 5; CShrink 5; CSave 9 1; CCommit 9; CCompact 5].
+
+Example demo_trace_length : length (snd (do_cmds ord_id init demo)) = 72%nat.
+Proof. vm_compute. reflexivity. Qed.
+
+Example demo_cut_nontrivial :
+  let s := run init (firstn 60 (snd (do_cmds ord_id init demo))) in
+  st_rec s = 5 /\ vnames (st_fs (run s [OCrash])) = [DGen 9; DFinal 5] /\
+  (let '(u, tr, ok) := process_orphans ord_id (run s [OCrash]) in
+   (ok, cleanb u, vnames (st_fs u), length tr)) = (true, true, [DFinal 5], 2%nat).
+Proof. vm_compute. auto. Qed.
+
+(* the loser's hypothesis is reachable *)
+Example demo_loser :
+  let s := fst (do_cmds ord_id init [CSave 5 2; CRecv 5 3]) in
+  has_dir (DGen 5) (st_fs s) = true /\ has_dir (DFinal 5) (st_fs s) = true.
+Proof. vm_compute. auto. Qed.
